@@ -9,6 +9,7 @@ CONSTANTS
   InputOps = {}
   Entries = {"run", "call", "evaluate"}
   TracerStyles = {"none"}
+  Threadeds = {FALSE}
   Flags = {"phantom_line"}
 INVARIANT Restored
 INVARIANT Contained
